@@ -37,6 +37,8 @@ def sym_state(ctx, v):
     syms = []
     for i, a in enumerate(score_slots(v)):
         sym = P.atom(Opaque(sym_name(i)), "dec" if v in (2, 3) else "flt")
+        # the symbolic score ranges over [0, 10]: that is what C09.range establishes for the real one
+        om.ev.__dict__.setdefault("opaque_bounds", {})[sym_name(i)] = (Fraction(0), Fraction(10))
         inst.attrs[a] = sym
         syms.append(sym)
     if v == 4:
@@ -295,4 +297,28 @@ def check_json_scores(ctx, led, v, rule="C09.agree.json"):
             r = eval_with(om, st2, x, {i: q})
             table[q] = r.v if isinstance(r, Const) else None
         out[vk] = table
+    # the same pairing must hold when optional groups are left out (minimal=True): whichever of
+    # the score / severity keys is emitted depends on its own slot's symbol only
+    if v in (2, 3):
+        st3 = st.copy()
+        try:
+            val3 = om.ev.run_method(st3, om.self_ref, f, [], {"sort": Const(False), "minimal": Const(True)})
+            o3 = st3.heap[val3.id]
+        except Exception:
+            o3 = None
+        if o3 is not None and getattr(o3, "kind", None) == "map":
+            for i, a in enumerate(score_slots(v)):
+                for key in (names[i] + "Score", names[i] + "Severity"):
+                    if key not in o3.entries:
+                        continue
+                    x = o3.entries[key][1]
+                    d = set(y for y in deps_of(x) if y.startswith("opaque:S"))
+                    n += 1
+                    led.check(
+                        d <= {"opaque:" + sym_name(i)},
+                        rule + ".minimal",
+                        "%s.as_json(minimal=True)[%s]" % (om.clsname, key),
+                        where,
+                        "with minimal=True %s must still be derived from slot %d (self.%s) only; it depends on %s" % (key, i, a, sorted(d)),
+                    )
     return n, out
